@@ -51,9 +51,10 @@ type harnessFile struct {
 	path   string
 	pkgDir string
 	aux    bool
+	auxFor []string
 }
 
-var reAuxDirective = regexp.MustCompile(`(?m)^//verif:aux\s+(\S+)`)
+var reAuxDirective = regexp.MustCompile(`(?m)^//verif:aux\s+(\S+)(?:[ \t]+for=(\S+))?`)
 
 var rePkgDirective = regexp.MustCompile(`(?m)^//verif:package\s+(\S+)`)
 
@@ -73,7 +74,11 @@ func findHarnessFiles(dir string) ([]harnessFile, error) {
 			return nil, err
 		}
 		if ma := reAuxDirective.FindSubmatch(b); ma != nil {
-			out = append(out, harnessFile{path: p, pkgDir: string(ma[1]), aux: true})
+			hf := harnessFile{path: p, pkgDir: string(ma[1]), aux: true}
+			if len(ma[2]) > 0 {
+				hf.auxFor = strings.Split(string(ma[2]), ",")
+			}
+			out = append(out, hf)
 			continue
 		}
 		m := rePkgDirective.FindSubmatch(b)
@@ -199,7 +204,7 @@ func runCheck(o *checkOpts) *CheckReport {
 	var aux []AuxFile
 	for _, f := range files {
 		if f.aux {
-			aux = append(aux, AuxFile{Path: f.path, PkgDir: f.pkgDir})
+			aux = append(aux, AuxFile{Path: f.path, PkgDir: f.pkgDir, For: f.auxFor})
 			continue
 		}
 		if f.pkgDir == "*" {
@@ -219,7 +224,20 @@ func runCheck(o *checkOpts) *CheckReport {
 	var wg sync.WaitGroup
 	var mu sync.Mutex
 	for _, dir := range sortedKeys(byPkg) {
-		g := &groupRun{spec: LoadSpec{RepoDir: o.repo, PkgDir: dir, Files: byPkg[dir], Aux: aux}}
+		// an aux file may be limited to some harness packages (//verif:aux <dir> for=<pkgdir>,...)
+		var gaux []AuxFile
+		for _, a := range aux {
+			ok := len(a.For) == 0
+			for _, d := range a.For {
+				if d == dir {
+					ok = true
+				}
+			}
+			if ok {
+				gaux = append(gaux, a)
+			}
+		}
+		g := &groupRun{spec: LoadSpec{RepoDir: o.repo, PkgDir: dir, Files: byPkg[dir], Aux: gaux}}
 		rep.Groups = append(rep.Groups, g)
 		wg.Add(1)
 		go func(g *groupRun) {
